@@ -172,6 +172,21 @@ reg(
 )
 
 
+reg(
+    "C16",
+    "translation_validation",
+    "Each x86 YAML scanning kernel (classify_yaml_chars both HAS_CR instantiations, find_quote_or_escape, find_single_quote, find_newline, "
+    "count_leading_spaces, find_block_scalar_end, parse_anchor_name) is evaluated from MIR in its AVX2 form, its SSE2 form, through the runtime "
+    "dispatcher under both detection outcomes, and in its scalar counterpart, on a finite structured family (needle x position across the 16/32-byte "
+    "widths x length x start/end; indentation x min_indent x line-break form x alignment for block scalars) and compared with the kernel's definition "
+    "(hence with each other). T1 decides dispatch safety. Whole-index equality follows only up to the parser using kernels as pure functions; not proved.",
+    [only_cfgs(_lazy("yamltab", "rule_yaml_kernels"), ["cli"]), T1_ALL],
+    quick=["cli"],
+    technique="finite-domain evaluation of kernel MIR (AVX2 / SSE2 / dispatcher / scalar siblings) vs kernel definitions + target-feature dominance",
+    design_ref="§3 CLASS/KSHAPE (realised as YAMLTAB), §4 C16",
+)
+
+
 def run(pid, tier, only=None, replay=None):
     if pid not in REGISTRY:
         print("property %s is not claimed (see MANIFEST.not_applicable)" % pid)
